@@ -4,8 +4,8 @@ from ..sim import Monitor
 from .common import all_demes, fb, flat, gb
 
 PROP = "C11"
-N_QUICK = 2500
-N_THOROUGH = 50000
+N_QUICK = 8000
+N_THOROUGH = 200000
 RULE = ("Plans biased to generations per metaepoch >= 2, large k_elites, p_mutation < 1, DE / SHADE with low crossover, "
         "CMA-ES leaves, root and sprouted positions; faults: budget exhaustion, external stop signal, injected LSC verdicts.")
 NONTRIVIAL_RULE = ">= 1 consecutive generation pair *inside* a metaepoch (generations >= 2) was judged"
